@@ -21,7 +21,7 @@ def retry_budget(kind, nretry, fatal, size, io, f1, f2, f3):
     attempts = 2
     script = [(f, True) for f in (f1, f2, f3)[:nretry]]
     if fatal:
-        script.append((f1, False))
+        script.append((f1, 'os' if fatal == 'os' else False))
     c = H.run_download(kind, size, size + 1, 1, io, stream_faults=script, attempts=attempts, subs=1)
     st, val = c.outcome
     gets = len([1 for op, kw in c.s3.calls if op == 'get_object'])
@@ -31,7 +31,7 @@ def retry_budget(kind, nretry, fatal, size, io, f1, f2, f3):
     if fatal and delivered == nretry + 1:
         if st == 'ok':
             return 'c03: success after a non-retryable stream fault'
-        if not isinstance(val, F.Injected):
+        if not isinstance(val, (F.Injected, F.InjectedOS)):
             return 'c03: wrong exception after a non-retryable stream fault'
         if gets != nretry + 1:
             return 'c03: request issued after a non-retryable fault'
@@ -53,7 +53,7 @@ def retry_budget(kind, nretry, fatal, size, io, f1, f2, f3):
 OBLIGATIONS = FT.fault_obligations('c03', 'C03') + [
     dict(id='C03.retry', impl='retry_budget', params='size: int, io: int, f1: int, f2: int, f3: int',
          cases=[('seekable', 1, False), ('seekable', 2, False), ('stream', 2, False), ('path', 2, False),
-                ('seekable', 0, True), ('seekable', 1, True), ('stream', 1, True)],
+                ('seekable', 0, True), ('seekable', 1, True), ('stream', 1, True), ('seekable', 0, 'os'), ('path', 1, 'os')],
          pre=['1 <= size', '1 <= io', 'size <= 2 * io', '-1 <= f1 <= size + 1 and -1 <= f2 <= size + 1 and -1 <= f3 <= size + 1'],
          timeout=(150, 600),
          bounds='single GET, num_download_attempts = 2, up to 2 retryable faults (+1 fatal) at symbolic byte positions '
